@@ -85,7 +85,7 @@ static bool WalkMsgIOStream(const uint8 * b, uint32 n, Walk & w)
    uint32 p = 0;
    while (p < n) {
       if (p + 8 > n) return false; w.W(p, R_FRAMELEN); w.W(p + 4, R_ENC); const uint32 len = RdLE(b + p), enc = RdLE(b + p + 4); p += 8;
-      if (p + len > n) return false; if (enc == 0) { if (!WalkMsg(b + p, len, p, w)) return false; } p += len;
+      if (p + len > n) return false; if (enc == 1164862256u /* MUSCLE_MESSAGE_ENCODING_DEFAULT 'Enc0' */) { if (!WalkMsg(b + p, len, p, w)) return false; } p += len;
    }
    return true;
 }
